@@ -74,7 +74,13 @@ def create_task(coro: Callable[[], Awaitable[Any]], loop: Optional[asyncio.Abstr
 
     async def run_task() -> None:
         with kiwipy.capture_exceptions(future):
-            res = await coro()
+            try:
+                res = await coro()
+            except asyncio.CancelledError:
+                # The coroutine ended in a cancellation (e.g. of something it awaited): so does the future, which
+                # otherwise would stay pending for ever
+                future.cancel()
+                raise
             future.set_result(res)
 
     asyncio.run_coroutine_threadsafe(run_task(), loop)
